@@ -380,7 +380,8 @@ pub fn run(ctx: &mut Ctx) {
 
     // ------------------------------------------------ constructed hellos (TLS new() and DTLS struct literal) with
     // lists of every size class, far beyond what fits on the wire: one result per advertised id, in order
-    const COUNTS: [usize; 20] = [0, 1, 2, 127, 128, 255, 256, 257, 4095, 4096, 32766, 32767, 32768, 32769, 65535, 65536, 65537, 70000, 131072, 1 << 20];
+    // (the last four: around 2^23 entries = a 2^24-byte list, the 24-bit handshake length, and beyond 2^24)
+    const COUNTS: [usize; 24] = [0, 1, 2, 127, 128, 255, 256, 257, 4095, 4096, 32766, 32767, 32768, 32769, 65535, 65536, 65537, 70000, 131072, 1 << 20, (1 << 23) - 1, 1 << 23, (1 << 23) + 1, (1 << 24) + 5];
     ctx.floor("long-lists", COUNTS.len() as u64 * 2);
     ctx.sweep("long-lists", COUNTS.len() as u64 * 2, |ctx, idx| {
         let mut rng = Rng::new(idx ^ 0x10C15);
